@@ -31,6 +31,19 @@ func checkC11(r *core.Run) {
 	c11Workers(r, p)
 	c11WorkerLocksBalanced(r, p, "R-C11-workers")
 	c11StaticDecoder(r, p, "R-C11-workers")
+	c11DoneIsLast(r, p, "R-C11-workers")
+	sentBufferNotReused(r, p, "R-C11-workers", []string{"lib/utxo", "lib/chain", "lib/btc"}, 2)
+	// the same state whatever the schedule: every element of the lists handed to workers is handed to exactly one
+	for _, bf := range []struct {
+		name string
+		n    int
+	}{{"lib/utxo.(*UnspentDB).commit", 2}, {"lib/btc.(*Block).BuildTxListExt", 1}} {
+		if f := p.Func(bf.name); f != nil {
+			batchTiling(r, p, "R-C11-workers", f, bf.n)
+		} else {
+			r.Fail("R-C11-workers", "batches/anchor/"+bf.name, "-", "function not found")
+		}
+	}
 }
 
 func c11Snapshot(r *core.Run, p *core.Program) {
@@ -572,6 +585,12 @@ func c11Workers(r *core.Run, p *core.Program) {
 					}
 				}
 			}
+			// variables of the spawner that the worker reads through its closure while the spawner assigns them
+			// again after the go statement (the loop variable of the spawning loop, under the language version
+			// of this module one variable for all iterations) - the worker may see the next iteration's value
+			capr := c11CapturedReassigned(p, g, worker, waits)
+			sort.Strings(capr)
+			r.Check(len(capr) == 0, rule, key+"/captured-reads", p.Pos(an.InstrPos(g)), "the worker reads no captured variable that the spawner assigns again before joining it", "the worker reads captured variables that the spawner assigns again before the join (the worker may see a later value): "+strings.Join(capr, "; "))
 			sort.Strings(capw)
 			r.Check(len(capw) == 0, rule, key+"/captured-writes", p.Pos(an.InstrPos(g)), "the worker assigns no captured variable directly (counters are updated atomically)", "the worker assigns captured variables without synchronisation: "+strings.Join(capw, "; "))
 		}
@@ -1120,4 +1139,170 @@ func c11StaticDecoder(r *core.Run, p *core.Program, rule string) {
 	sort.Strings(bad)
 	bad = dedupStrings(bad)
 	r.Check(len(bad) == 0 && len(roots) >= 3, rule, key, "-", fmt.Sprintf("%d decoder(s) into the package-level record, reachable from none of the %d goroutine bodies of lib/utxo, lib/chain and client/wallet", len(static), len(roots)), strings.Join(bad, "; "))
+}
+
+// c11CapturedReassigned: variables of the spawner that the worker started by g reads through its closure and
+// that the spawner assigns again after the go statement without a join in between.
+func c11CapturedReassigned(p *core.Program, g *ssa.Go, worker *ssa.Function, waits []ssa.CallInstruction) []string {
+	var capr []string
+	if mc, isMC := g.Call.Value.(*ssa.MakeClosure); isMC {
+		for k, fv := range worker.FreeVars {
+			if k >= len(mc.Bindings) {
+				continue
+			}
+			read := false
+			for _, ref := range *fv.Referrers() {
+				switch x := ref.(type) {
+				case *ssa.UnOp:
+					read = read || x.Op == token.MUL
+				case *ssa.MakeClosure:
+					read = true // handed on to a nested closure
+				}
+			}
+			if !read {
+				continue
+			}
+			cell := mc.Bindings[k]
+			refs := cell.Referrers()
+			if refs == nil {
+				continue
+			}
+			for _, ref := range *refs {
+				st, ok := ref.(*ssa.Store)
+				if !ok || st.Addr != cell {
+					continue
+				}
+				after := false
+				if st.Block() == g.Block() {
+					seenGo := false
+					for _, x := range st.Block().Instrs {
+						if x == ssa.Instruction(g) {
+							seenGo = true
+						}
+						if x == ssa.Instruction(st) && seenGo {
+							after = true
+						}
+					}
+					if !after && c11Reach(g.Block(), st.Block()) {
+						after = true
+					}
+				} else {
+					after = c11Reach(g.Block(), st.Block())
+				}
+				if !after {
+					continue
+				}
+				joined := false
+				for _, w := range waits {
+					if _, isCall := w.(*ssa.Call); isCall && w.Block().Dominates(st.Block()) && w.Block() != st.Block() {
+						joined = true
+					}
+				}
+				if !joined {
+					capr = append(capr, fv.Name()+" assigned at "+p.Pos(an.InstrPos(st)))
+				}
+			}
+		}
+	}
+	return capr
+}
+
+// c11GoWorker resolves the function a go statement starts (closure, named function, or a closure kept in a
+// local variable).
+func c11GoWorker(g *ssa.Go) *ssa.Function {
+	switch v := g.Call.Value.(type) {
+	case *ssa.MakeClosure:
+		f, _ := v.Fn.(*ssa.Function)
+		return f
+	case *ssa.Function:
+		return v
+	case *ssa.UnOp:
+		if al, ok := v.X.(*ssa.Alloc); ok && al.Referrers() != nil {
+			for _, ref := range *al.Referrers() {
+				if st, ok := ref.(*ssa.Store); ok {
+					if mc, ok := st.Val.(*ssa.MakeClosure); ok {
+						f, _ := mc.Fn.(*ssa.Function)
+						return f
+					}
+				}
+			}
+		}
+	}
+	return g.Call.StaticCallee()
+}
+
+// c11DoneIsLast: a worker tells its spawner that it has finished (WaitGroup.Done) after its effects: once Done
+// was called the spawner's Wait may return, so nothing the worker does afterwards - a file written or renamed,
+// a store into shared memory, a map update, a send - is covered by the join any more.
+func c11DoneIsLast(r *core.Run, p *core.Program, rule string) {
+	n := 0
+	seenW := map[*ssa.Function]bool{}
+	for _, fn := range p.ModuleFuncs() {
+		name := core.FuncName(fn)
+		if !(strings.Contains(name, "lib/btc.") || strings.Contains(name, "lib/chain.") || strings.Contains(name, "lib/utxo.")) {
+			continue
+		}
+		an.Instrs(fn, func(i ssa.Instruction) {
+			g, ok := i.(*ssa.Go)
+			if !ok {
+				return
+			}
+			w := c11GoWorker(g)
+			if w == nil || !core.InModule(w) || w.Blocks == nil || seenW[w] {
+				return
+			}
+			seenW[w] = true
+			for _, d := range an.CallsTo(w, false, "(*sync.WaitGroup).Done") {
+				if _, isDefer := d.(*ssa.Defer); isDefer {
+					continue
+				}
+				n++
+				bad := ""
+				after := false
+				effect := func(ins ssa.Instruction) string {
+					switch x := ins.(type) {
+					case *ssa.Call:
+						if _, isB := x.Call.Value.(*ssa.Builtin); isB {
+							return ""
+						}
+						cn := an.CallName(x)
+						if strings.HasPrefix(cn, "fmt.") || strings.HasPrefix(cn, "(*sync.WaitGroup).") || strings.HasPrefix(cn, "(*sync.Mutex).Unlock") || strings.HasPrefix(cn, "(*sync.RWMutex).") {
+							return ""
+						}
+						return "call of " + cn
+					case *ssa.Store:
+						if al, ok := x.Addr.(*ssa.Alloc); ok && !al.Heap {
+							return ""
+						}
+						return "store"
+					case *ssa.MapUpdate:
+						return "map update"
+					case *ssa.Send:
+						return "send"
+					}
+					return ""
+				}
+				for _, ins := range d.Block().Instrs {
+					if ins == d.(ssa.Instruction) {
+						after = true
+						continue
+					}
+					if after {
+						if e := effect(ins); e != "" && bad == "" {
+							bad = e + " at " + p.Pos(an.InstrPos(ins))
+						}
+					}
+				}
+				for b := range an.ReachableAvoiding([]*ssa.BasicBlock{d.Block()}, nil) {
+					for _, ins := range b.Instrs {
+						if e := effect(ins); e != "" && bad == "" {
+							bad = e + " at " + p.Pos(an.InstrPos(ins))
+						}
+					}
+				}
+				r.Check(bad == "", rule, "done-is-last/"+core.FuncName(w), p.Pos(d.Pos()), "nothing with an effect follows Done", "the worker signals completion and then goes on: "+bad+" - the spawner's Wait may return before it")
+			}
+		})
+	}
+	r.Check(n >= 3, rule, "done-is-last/sites", "-", fmt.Sprintf("%d explicit Done calls in workers", n), fmt.Sprintf("only %d explicit Done calls in workers found", n))
 }
